@@ -79,6 +79,9 @@ def run_history(it, fn, a):
         client = Scripted("https://ofx.example.com/ofx", org="ORG", fid="77")
         clock = T0
         for i, b in enumerate(history):
+            # "<behaviour>@np": this call passes persist=False; "@scan": the options ofxget's profile scan overrides
+            b, _, opt = b.partition("@")
+            callkw = {"np": {"persist": False}, "scan": {"version": 102, "prettyprint": True, "close_elements": False}, "": {}}[opt]
             if i == restart_at:
                 client = Scripted("https://ofx.example.com/ofx", org="ORG", fid="77")
             base = held_dt or T0
@@ -115,7 +118,7 @@ def run_history(it, fn, a):
             before = path.read_bytes() if path.exists() else None
             n_asked = len(script["asked"])
             try:
-                out = client.request_profile().read()
+                out = client.request_profile(**callkw).read()
                 ok = True
             except Exception as ex:
                 ok = False
@@ -164,6 +167,13 @@ def cases(tier):
         for h in itertools.product(BEHAVIOURS, repeat=ln):
             for restart in ([None] + list(range(1, ln)) if ln <= 3 else [None, 2]):
                 out.append([list(h), restart])
+    # the same statement whatever options the caller passes to request_profile
+    opts = ["", "@np", "@scan"]
+    for ln in (1, 2, 3):
+        for h in itertools.product(BEHAVIOURS if ln < 3 else ["newer", "older", "uptodate", "error"], repeat=ln):
+            for o in itertools.product(opts, repeat=ln):
+                if any(o):
+                    out.append([[b + x for b, x in zip(h, o)], None])
     for x in EXTRA:
         for tail in (["uptodate"], ["newer"], ["older"], ["same"], ["uptodate", "newer"]):
             for restart in (None, 1):
